@@ -54,7 +54,7 @@
 #include <unistd.h>
 
 using namespace simgrid::mc;
-using Type = Transition::Type;
+using TT = Transition::Type;
 
 static int log_fd = 1;
 static void emit(const std::string& r)
@@ -79,77 +79,77 @@ static std::string fields(const Transition* t)
 {
   std::string n = Transition::to_c_str(t->type_);
   switch (t->type_) {
-    case Type::RANDOM: {
+    case TT::RANDOM: {
       auto* r = static_cast<const RandomTransition*>(t);
       return n + " min=" + S(r->min_) + " max=" + S(r->max_);
     }
-    case Type::ACTOR_JOIN: {
+    case TT::ACTOR_JOIN: {
       auto* j = static_cast<const ActorJoinTransition*>(t);
       return n + " target=" + S(j->target_.c_val()) + " timeout=" + S(j->timeout_);
     }
-    case Type::ACTOR_EXIT:
-    case Type::ACTOR_SLEEP:
+    case TT::ACTOR_EXIT:
+    case TT::ACTOR_SLEEP:
       return n;
-    case Type::ACTOR_CREATE:
+    case TT::ACTOR_CREATE:
       return n + " child=" + S(static_cast<const ActorCreateTransition*>(t)->child_.c_val());
-    case Type::MUTEX_ASYNC_LOCK:
-    case Type::MUTEX_TEST:
-    case Type::MUTEX_TRYLOCK:
-    case Type::MUTEX_UNLOCK:
-    case Type::MUTEX_WAIT: {
+    case TT::MUTEX_ASYNC_LOCK:
+    case TT::MUTEX_TEST:
+    case TT::MUTEX_TRYLOCK:
+    case TT::MUTEX_UNLOCK:
+    case TT::MUTEX_WAIT: {
       auto* m = static_cast<const MutexTransition*>(t);
       return n + " mutex=" + S((long)m->mutex_) + " owner=" + S(m->owner_.c_val());
     }
-    case Type::SEM_ASYNC_LOCK:
-    case Type::SEM_UNLOCK:
-    case Type::SEM_WAIT: {
+    case TT::SEM_ASYNC_LOCK:
+    case TT::SEM_UNLOCK:
+    case TT::SEM_WAIT: {
       auto* s = static_cast<const SemaphoreTransition*>(t);
       return n + " sem=" + S(s->sem_) + " granted=" + S(s->granted_) + " capacity=" + S(s->capacity_);
     }
-    case Type::BARRIER_ASYNC_LOCK:
-    case Type::BARRIER_WAIT:
+    case TT::BARRIER_ASYNC_LOCK:
+    case TT::BARRIER_WAIT:
       return n + " bar=" + S(static_cast<const BarrierTransition*>(t)->bar_);
-    case Type::CONDVAR_ASYNC_LOCK: {
+    case TT::CONDVAR_ASYNC_LOCK: {
       auto* c = static_cast<const CondvarTransition*>(t);
       return n + " cond=" + S(c->condvar_) + " mutex=" + S(c->mutex_);
     }
-    case Type::CONDVAR_WAIT: {
+    case TT::CONDVAR_WAIT: {
       auto* c = static_cast<const CondvarTransition*>(t);
       return n + " cond=" + S(c->condvar_) + " mutex=" + S(c->mutex_) + " granted=" + S(c->granted_) + " timeout=" + S(c->timeout_);
     }
-    case Type::CONDVAR_SIGNAL:
-    case Type::CONDVAR_BROADCAST:
+    case TT::CONDVAR_SIGNAL:
+    case TT::CONDVAR_BROADCAST:
       return n + " cond=" + S(static_cast<const CondvarTransition*>(t)->condvar_);
-    case Type::COMM_ASYNC_SEND: {
+    case TT::COMM_ASYNC_SEND: {
       auto* c = static_cast<const CommSendTransition*>(t);
       return n + " comm=" + S(c->comm_) + " mbox=" + S(c->mbox_) + " tag=" + S(c->tag_) + " loc=" + esc(t->get_call_location());
     }
-    case Type::COMM_ASYNC_RECV: {
+    case TT::COMM_ASYNC_RECV: {
       auto* c = static_cast<const CommRecvTransition*>(t);
       return n + " comm=" + S(c->comm_) + " mbox=" + S(c->mbox_) + " tag=" + S(c->tag_) + " loc=" + esc(t->get_call_location());
     }
-    case Type::COMM_IPROBE: {
+    case TT::COMM_IPROBE: {
       auto* c = static_cast<const CommIprobeTransition*>(t);
       return n + " mbox=" + S(c->mbox_) + " sender=" + S(c->is_sender_) + " tag=" + S(c->tag_);
     }
-    case Type::COMM_TEST: {
+    case TT::COMM_TEST: {
       auto* c = static_cast<const CommTestTransition*>(t);
       return n + " comm=" + S(c->comm_) + " src=" + S(c->sender_.c_val()) + " dst=" + S(c->receiver_.c_val()) + " mbox=" +
              S(c->mbox_) + " loc=" + esc(t->get_call_location());
     }
-    case Type::COMM_WAIT: {
+    case TT::COMM_WAIT: {
       auto* c = static_cast<const CommWaitTransition*>(t);
       return n + " timeout=" + S(c->timeout_) + " comm=" + S(c->comm_) + " src=" + S(c->sender_.c_val()) +
              " dst=" + S(c->receiver_.c_val()) + " mbox=" + S(c->mbox_) + " loc=" + esc(t->get_call_location());
     }
-    case Type::TESTANY: {
+    case TT::TESTANY: {
       auto* a       = static_cast<const TestAnyTransition*>(t);
       std::string r = n + " n=" + S(a->transitions_.size()) + " loc=" + esc(t->get_call_location());
       for (auto* s : a->transitions_)
         r += " { " + fields(s) + " }";
       return r;
     }
-    case Type::WAITANY: {
+    case TT::WAITANY: {
       auto* a       = static_cast<const WaitAnyTransition*>(t);
       std::string r = n + " n=" + S(a->transitions_.size()) + " loc=" + esc(t->get_call_location());
       for (auto* s : a->transitions_)
@@ -165,9 +165,9 @@ static std::string fields(const Transition* t)
 static std::string current_of(const Transition* t)
 {
   try {
-    if (t->type_ == Type::TESTANY)
+    if (t->type_ == TT::TESTANY)
       return fields(static_cast<const TestAnyTransition*>(t)->get_current_transition());
-    if (t->type_ == Type::WAITANY)
+    if (t->type_ == TT::WAITANY)
       return fields(static_cast<const WaitAnyTransition*>(t)->get_current_transition());
   } catch (const std::exception& e) {
     return std::string("EXCEPTION ") + esc(e.what());
@@ -268,9 +268,17 @@ static int walk_mode(int argc, char** argv)
   try {
     RemoteApp app(argv_copy);
     bool fresh = true;
+    // snapshots stay alive until the walk is over: the checker sides cloned from them keep a pointer to them
+    std::vector<std::unique_ptr<CheckerSide>> snaps;
+    auto drop_snaps = [&snaps]() {
+      for (auto it = snaps.rbegin(); it != snaps.rend(); ++it)
+        (*it)->finalize(true);
+      snaps.clear();
+    };
     for (long w = 0; w < walks; w++) {
       if (not fresh)
         app.restore_checker_side(nullptr, true);
+      drop_snaps();
       fresh = false;
       emit("W " + S(w) + "\n");
       for (long d = 0; d < depth; d++) {
@@ -287,9 +295,11 @@ static int walk_mode(int argc, char** argv)
           std::swap(pairs[i - 1], pairs[rng() % i]);
         if ((long)pairs.size() > maxpairs)
           pairs.resize(maxpairs);
-        std::unique_ptr<CheckerSide> snap;
-        if (not pairs.empty())
-          snap = app.clone_checker_side();
+        CheckerSide* snap = nullptr;
+        if (not pairs.empty()) {
+          snaps.push_back(app.clone_checker_side());
+          snap = snaps.back().get();
+        }
         for (auto [i, j] : pairs) {
           auto [a1, t1] = st.enabled[i];
           auto [a2, t2] = st.enabled[j];
@@ -298,7 +308,7 @@ static int walk_mode(int argc, char** argv)
           emit("P " + S(a1) + " " + S(t1) + " " + S(a2) + " " + S(t2) + "\n");
           TransitionPtr e1, e2, e1b, e2b; // e1,e2: executed from the state; e2b: t2 executed after t1; e1b: t1 after t2
           emit("B 1\n");
-          app.restore_checker_side(snap.get(), true);
+          app.restore_checker_side(snap, true);
           e1 = execute(app, a1, t1);
           if (get_status(app).is_enabled(a2, t2)) {
             e2b = execute(app, a2, t2);
@@ -306,7 +316,7 @@ static int walk_mode(int argc, char** argv)
           } else
             emit("N " + S(a2) + " " + S(t2) + "\n");
           emit("B 2\n");
-          app.restore_checker_side(snap.get(), true);
+          app.restore_checker_side(snap, true);
           e2 = execute(app, a2, t2);
           if (get_status(app).is_enabled(a1, t1)) {
             e1b = execute(app, a1, t1);
@@ -319,13 +329,12 @@ static int walk_mode(int argc, char** argv)
         auto [a, t] = st.enabled[rng() % st.enabled.size()];
         emit("G " + S(a) + " " + S(t) + "\n");
         if (snap)
-          app.restore_checker_side(snap.get(), true);
+          app.restore_checker_side(snap, true);
         execute(app, a, t);
-        if (snap)
-          snap->finalize(true);
       }
     }
     app.finalize_app(true);
+    drop_snaps();
   } catch (const McError& e) {
     emit("E McError " + S((int)e.value) + "\n");
     return 4;
@@ -381,7 +390,7 @@ static long rd(std::istream& is)
 }
 static void pack_test(Packer& P, std::istream& is)
 {
-  P.p(Type::COMM_TEST);
+  P.p(TT::COMM_TEST);
   P.p((unsigned)rd(is));
   P.p((aid_t)rd(is));
   P.p((aid_t)rd(is));
@@ -390,7 +399,7 @@ static void pack_test(Packer& P, std::istream& is)
 }
 static void pack_wait(Packer& P, std::istream& is)
 {
-  P.p(Type::COMM_WAIT);
+  P.p(TT::COMM_WAIT);
   P.p((bool)rd(is));
   P.p((unsigned)rd(is));
   P.p((aid_t)rd(is));
@@ -404,36 +413,36 @@ static Transition* parse(std::istream& is)
   std::string k;
   is >> k;
   Packer P;
-  auto mutex = [&](Type t) { P.p(t); P.p((unsigned)rd(is)); P.p((aid_t)rd(is)); };
-  auto sem   = [&](Type t) { P.p(t); P.p((unsigned)rd(is)); P.p((bool)rd(is)); P.p((int)rd(is)); };
-  if (k == "ML") mutex(Type::MUTEX_ASYNC_LOCK);
-  else if (k == "MW") mutex(Type::MUTEX_WAIT);
-  else if (k == "MU") mutex(Type::MUTEX_UNLOCK);
-  else if (k == "MT") mutex(Type::MUTEX_TRYLOCK);
-  else if (k == "Mt") mutex(Type::MUTEX_TEST);
-  else if (k == "SL") sem(Type::SEM_ASYNC_LOCK);
-  else if (k == "SU") sem(Type::SEM_UNLOCK);
-  else if (k == "SW") sem(Type::SEM_WAIT);
-  else if (k == "BL") { P.p(Type::BARRIER_ASYNC_LOCK); P.p((unsigned)rd(is)); }
-  else if (k == "BW") { P.p(Type::BARRIER_WAIT); P.p((unsigned)rd(is)); }
-  else if (k == "CL") { P.p(Type::CONDVAR_ASYNC_LOCK); P.p((unsigned)rd(is)); P.p((unsigned)rd(is)); }
-  else if (k == "CW") { P.p(Type::CONDVAR_WAIT); P.p((unsigned)rd(is)); P.p((unsigned)rd(is)); P.p((bool)rd(is)); P.p((bool)rd(is)); }
-  else if (k == "CS") { P.p(Type::CONDVAR_SIGNAL); P.p((unsigned)rd(is)); }
-  else if (k == "CB") { P.p(Type::CONDVAR_BROADCAST); P.p((unsigned)rd(is)); }
+  auto mutex = [&](TT t) { P.p(t); P.p((unsigned)rd(is)); P.p((aid_t)rd(is)); };
+  auto sem   = [&](TT t) { P.p(t); P.p((unsigned)rd(is)); P.p((bool)rd(is)); P.p((int)rd(is)); };
+  if (k == "ML") mutex(TT::MUTEX_ASYNC_LOCK);
+  else if (k == "MW") mutex(TT::MUTEX_WAIT);
+  else if (k == "MU") mutex(TT::MUTEX_UNLOCK);
+  else if (k == "MT") mutex(TT::MUTEX_TRYLOCK);
+  else if (k == "Mt") mutex(TT::MUTEX_TEST);
+  else if (k == "SL") sem(TT::SEM_ASYNC_LOCK);
+  else if (k == "SU") sem(TT::SEM_UNLOCK);
+  else if (k == "SW") sem(TT::SEM_WAIT);
+  else if (k == "BL") { P.p(TT::BARRIER_ASYNC_LOCK); P.p((unsigned)rd(is)); }
+  else if (k == "BW") { P.p(TT::BARRIER_WAIT); P.p((unsigned)rd(is)); }
+  else if (k == "CL") { P.p(TT::CONDVAR_ASYNC_LOCK); P.p((unsigned)rd(is)); P.p((unsigned)rd(is)); }
+  else if (k == "CW") { P.p(TT::CONDVAR_WAIT); P.p((unsigned)rd(is)); P.p((unsigned)rd(is)); P.p((bool)rd(is)); P.p((bool)rd(is)); }
+  else if (k == "CS") { P.p(TT::CONDVAR_SIGNAL); P.p((unsigned)rd(is)); }
+  else if (k == "CB") { P.p(TT::CONDVAR_BROADCAST); P.p((unsigned)rd(is)); }
   else if (k == "RV" || k == "SD") {
-    P.p(k == "RV" ? Type::COMM_ASYNC_RECV : Type::COMM_ASYNC_SEND);
+    P.p(k == "RV" ? TT::COMM_ASYNC_RECV : TT::COMM_ASYNC_SEND);
     P.p((unsigned)rd(is)); P.p((unsigned)rd(is)); P.p((int)rd(is)); P.p(std::string("c"));
   }
-  else if (k == "IP") { P.p(Type::COMM_IPROBE); P.p((unsigned)rd(is)); P.p((bool)rd(is)); P.p((int)rd(is)); }
+  else if (k == "IP") { P.p(TT::COMM_IPROBE); P.p((unsigned)rd(is)); P.p((bool)rd(is)); P.p((int)rd(is)); }
   else if (k == "TS") pack_test(P, is);
   else if (k == "WT") pack_wait(P, is);
-  else if (k == "AJ") { P.p(Type::ACTOR_JOIN); P.p((aid_t)rd(is)); P.p((bool)rd(is)); }
-  else if (k == "AE") { P.p(Type::ACTOR_EXIT); }
-  else if (k == "AS") { P.p(Type::ACTOR_SLEEP); }
-  else if (k == "AC") { P.p(Type::ACTOR_CREATE); P.p((aid_t)rd(is)); }
-  else if (k == "RN") { P.p(Type::RANDOM); P.p((int)rd(is)); P.p((int)rd(is)); }
+  else if (k == "AJ") { P.p(TT::ACTOR_JOIN); P.p((aid_t)rd(is)); P.p((bool)rd(is)); }
+  else if (k == "AE") { P.p(TT::ACTOR_EXIT); }
+  else if (k == "AS") { P.p(TT::ACTOR_SLEEP); }
+  else if (k == "AC") { P.p(TT::ACTOR_CREATE); P.p((aid_t)rd(is)); }
+  else if (k == "RN") { P.p(TT::RANDOM); P.p((int)rd(is)); P.p((int)rd(is)); }
   else if (k == "TA" || k == "WA") {
-    P.p(k == "TA" ? Type::TESTANY : Type::WAITANY);
+    P.p(k == "TA" ? TT::TESTANY : TT::WAITANY);
     unsigned n = rd(is);
     P.p(n);
     for (unsigned i = 0; i < n; i++) {
